@@ -327,4 +327,35 @@ spec:
     metadata: {labels: {app: b}}
     spec:
       containers: [{name: c, image: x, ports: [{containerPort: 8080, name: web}]}]
+`, `apiVersion: v1
+kind: List
+items:
+- apiVersion: v1
+  kind: Service
+  metadata: {name: s-noports, namespace: ns1}
+  spec:
+    selector: {app: e}
+    ports:
+    - {name: p1, port: 80, targetPort: 8080}
+    - {name: p2, port: 81}
+    - {name: p3, port: 53, protocol: UDP}
+- apiVersion: networking.k8s.io/v1
+  kind: Ingress
+  metadata: {name: i-noports, namespace: ns1}
+  spec:
+    defaultBackend:
+      service: {name: s-noports, port: {number: 80}}
+    rules:
+    - http:
+        paths:
+        - path: /
+          pathType: Prefix
+          backend:
+            service: {name: s-noports, port: {number: 81}}
+- apiVersion: route.openshift.io/v1
+  kind: Route
+  metadata: {name: r-noports, namespace: ns1}
+  spec:
+    to: {kind: Service, name: s-noports}
+    port: {targetPort: 8080}
 `}
